@@ -238,6 +238,15 @@ func variants(b byte) (encs [][]byte, trailer []byte) {
 		encs = append(encs, op(o, l...)) // empty
 		l[0] = 2
 		encs = append(encs, cat(op(o, l...), []byte{0x01, 0x80}), cat(op(o, l...), []byte{0x01})) // 2 bytes; truncated
+		// truncated length prefix (the script ends inside it), also none at all
+		for k := 0; k < prefix; k++ {
+			encs = append(encs, op(o, rep(0, k)...))
+		}
+		if prefix == 4 {
+			// declared length just above MaxItemSize, data absent / present
+			encs = append(encs, op(o, le32(sv.MaxItemSize+1)...), cat(op(o, le32(sv.MaxItemSize+1)...), rep(0, sv.MaxItemSize+1)),
+				cat(op(o, le32(sv.MaxItemSize)...), rep(0, sv.MaxItemSize), op(sv.SIZE)), op(o, 0xff, 0xff, 0xff, 0xff), op(o, 0, 0, 0, 0x80))
+		}
 	case o == sv.PUSHA:
 		for _, off := range []int32{0, 5, 7, 8, -1, -100} {
 			encs = append(encs, op(o, le32(off)...))
@@ -320,6 +329,9 @@ func encName(e []byte) string {
 	}
 	if len(e) == 1 {
 		return sv.Op(e[0]).Name()
+	}
+	if len(e) > 40 {
+		return fmt.Sprintf("%s(%x..,%d bytes)", sv.Op(e[0]).Name(), e[1:9], len(e)-1)
 	}
 	return fmt.Sprintf("%s(%x)", sv.Op(e[0]).Name(), e[1:])
 }
@@ -436,7 +448,8 @@ func sections(r *vk.Run) []section {
 			}
 		}
 	}})
-	secs = append(secs, seqSection(r), trySection(r), compoundSection(r), limitSection(), slotSection(r), freshSection(), freshCompoundSection())
+	secs = append(secs, seqSection(r), trySection(r), compoundSection(r), limitSection(), slotSection(r), freshSection(), freshCompoundSection(),
+		sameItemSection(), setitemBufferSection(), structEqualSection(), preGorgonSection(), hostSection())
 	// cheap and diverse sections first, the big sweeps last (the deadline, if
 	// it ever strikes, then cuts the most redundant part).
 	order := map[string]int{"nullary": 0, "limits": 1, "unary": 2, "memcpy": 3, "big-values": 4, "try-nests(depth2)": 5}
@@ -450,7 +463,8 @@ func sections(r *vk.Run) []section {
 				return 10 // len 4: the largest section of the thorough tier goes last
 			}
 			return 6
-		case strings.HasPrefix(s.name, "slots"), strings.HasPrefix(s.name, "result-freshness"):
+		case strings.HasPrefix(s.name, "slots"), strings.HasPrefix(s.name, "result-freshness"),
+			s.name == "same-item", s.name == "setitem-buffer", s.name == "struct-equal", strings.HasPrefix(s.name, "pre-gorgon"), s.name == "host-scripts":
 			return 6
 		case s.name == "binary":
 			return 7
@@ -555,6 +569,12 @@ func (c *asmCtx) one(n *node, fnOff func(fn int, at int) int32, base int) []byte
 		return cat(c.marker(), op(sv.NEWARRAY0), pushI(0), op(sv.PICKITEM))
 	case "abort":
 		return cat(c.marker(), op(sv.ABORT))
+	case "endtry":
+		return cat(c.marker(), op(sv.ENDTRY, 2))
+	case "endfinally":
+		return cat(c.marker(), op(sv.ENDFINALLY))
+	case "ret":
+		return cat(c.marker(), op(sv.RET))
 	case "call":
 		return op(sv.CALL_L, le32(fnOff(n.fn, base))...)
 	case "try":
@@ -612,6 +632,8 @@ func describe(ns []*node) string {
 			p = append(p, "pickitem-out-of-range")
 		case "abort":
 			p = append(p, "abort")
+		case "endtry", "endfinally", "ret":
+			p = append(p, n.kind)
 		case "call":
 			p = append(p, fmt.Sprintf("call%d", n.fn))
 		case "try":
@@ -650,8 +672,11 @@ func assemble(main []*node, fns [][]*node) []byte {
 
 var mk = &node{kind: "mark"}
 var thr = &node{kind: "throw"}
-var eng = &node{kind: "engine"} // exception raised by the engine: PICKITEM out of range
-var abt = &node{kind: "abort"}  // ABORT: not catchable
+var eng = &node{kind: "engine"}     // exception raised by the engine: PICKITEM out of range
+var abt = &node{kind: "abort"}      // ABORT: not catchable
+var etr = &node{kind: "endtry"}     // a stray ENDTRY to the next instruction (faults inside a finally block, leaves the block elsewhere)
+var efn = &node{kind: "endfinally"} // a stray ENDFINALLY
+var rtn = &node{kind: "ret"}        // RET out of the block
 
 func tryNode(shape string, body, catch, fin []*node) *node {
 	return &node{kind: "try", shape: shape, body: body, catch: catch, fin: fin}
@@ -688,7 +713,8 @@ type fillOpt struct {
 }
 
 func regionFills() []fillOpt {
-	opts := []fillOpt{{ns: []*node{mk}}, {ns: []*node{thr}}, {ns: []*node{eng, mk}}, {ns: []*node{abt}}}
+	opts := []fillOpt{{ns: []*node{mk}}, {ns: []*node{thr}}, {ns: []*node{eng, mk}}, {ns: []*node{abt}},
+		{ns: []*node{etr, mk}}, {ns: []*node{efn, mk}}, {ns: []*node{rtn}}}
 	for _, in := range innerTries() {
 		opts = append(opts, fillOpt{ns: []*node{mk, in, mk}})
 	}
@@ -934,6 +960,7 @@ func limitSection() section {
 			e(fmt.Sprintf("NEWSTRUCT,DUP,EQUAL(%d)", n), pushI(n), op(sv.NEWSTRUCT), op(sv.DUP), op(sv.EQUAL))
 			e(fmt.Sprintf("NEWSTRUCTx2,EQUAL(%d)", n), pushI(n), op(sv.NEWSTRUCT), pushI(n), op(sv.NEWSTRUCT), op(sv.EQUAL))
 		}
+		structLimitPrograms(e)
 		// self reference: array appended to itself, result compared with sharing
 		e("cycle-array", op(sv.NEWARRAY0), op(sv.DUP), op(sv.DUP), op(sv.APPEND))
 		e("cycle-array,SIZE", op(sv.NEWARRAY0), op(sv.DUP), op(sv.DUP), op(sv.APPEND), op(sv.DUP), pushI(0), op(sv.PICKITEM), op(sv.SIZE))
@@ -1217,6 +1244,254 @@ func freshCompoundSection() section {
 			run(p.Name, p.Code)
 			for _, q := range prods {
 				run(p.Name+";"+q.Name, cat(p.Code, q.Code))
+			}
+		}
+	}}
+}
+
+// ---- the same item as both operands ---------------------------------------------------------------------
+
+// sameItemSection: every operand-less opcode on [v, v] where both stack
+// entries are THE SAME item (v DUP op): identity short cuts of equality
+// (Pointer, ByteString, Struct, Buffer ...), APPEND/SETITEM/CAT/MEMCPY of an
+// item to itself.
+func sameItemSection() section {
+	V1 := append(valuesV(), valuesTyped()...)
+	return section{"same-item", len(V1), func(j int, emit func(prog)) {
+		v := V1[j]
+		for b := 0; b < 256; b++ {
+			if !sv.Defined(byte(b)) {
+				continue
+			}
+			if f, p := sv.OperandSize(sv.Op(b)); f != 0 || p != 0 {
+				continue
+			}
+			if hugeCount(byte(b), v) {
+				continue
+			}
+			emit(prog{Key: sv.Op(b).Name() + ":" + v.Name + ",<same>", Class: sv.Op(b).Name(), Script: cat(v.Code, op(sv.DUP), []byte{byte(b)})})
+			emit(prog{Key: sv.Op(b).Name() + ":" + v.Name + ",<same>,<same>", Class: sv.Op(b).Name(), Script: cat(v.Code, op(sv.DUP), op(sv.DUP), []byte{byte(b)})})
+		}
+	}}
+}
+
+// ---- SETITEM on a Buffer: index x value ---------------------------------------------------------------------
+
+func setitemBufferSection() section {
+	return section{"setitem-buffer", 1, func(_ int, emit func(prog)) {
+		vals := []val{ival(bi(-129)), ival(bi(-128)), ival(bi(-1)), ival(bi(0)), ival(bi(127)), ival(bi(128)), ival(bi(255)), ival(bi(256)),
+			ival(p2(31)), ival(add(p2(31), -1)), ival(neg(p2(31))), ival(add(neg(p2(31)), -1)), ival(add(p2(255), -1)),
+			{Name: "true", Code: op(sv.PUSHT)}, {Name: "false", Code: op(sv.PUSHF)}, bval([]byte{0xff}), bval([]byte{0xff, 0x00}), bval([]byte{0x00, 0x01}), bval(nil), bval(rep(0, 33)),
+			{Name: "null", Code: op(sv.PUSHNULL)}, {Name: "buffer(01)", Code: pushBuf([]byte{1})}, {Name: "array[]", Code: op(sv.NEWARRAY0)}, {Name: "struct[]", Code: op(sv.NEWSTRUCT0)}, {Name: "pointer", Code: op(sv.PUSHA, 0, 0, 0, 0)}}
+		idxs := []val{ival(bi(-1)), ival(bi(0)), ival(bi(2)), ival(bi(3)), ival(p2(31)), {Name: "true", Code: op(sv.PUSHT)}, bval([]byte{1}), bval(nil), {Name: "null", Code: op(sv.PUSHNULL)}, {Name: "buffer(01)", Code: pushBuf([]byte{1})}}
+		for _, n := range []int{0, 3} {
+			for _, i := range idxs {
+				for _, v := range vals {
+					for _, wrap := range []bool{false, true} {
+						body := cat(pushBuf(rep(7, n)), op(sv.DUP), i.Code, v.Code, op(sv.SETITEM))
+						key := fmt.Sprintf("SETITEM:buffer(%d),%s,%s", n, i.Name, v.Name)
+						if wrap {
+							// inside try/catch: a catchable index error vs an uncatchable value error
+							body = cat(op(sv.TRY, byte(3+len(body)+2), 0), body, op(sv.ENDTRY, 3), op(sv.PUSHT))
+							key += ",in-try"
+						}
+						emit(prog{Key: key, Class: "SETITEM-buffer", Script: body})
+					}
+				}
+			}
+		}
+	}}
+}
+
+// ---- struct equality by value ----------------------------------------------------------------------------------
+
+func structEqualSection() section {
+	elems := []val{ival(bi(1)), ival(bi(2)), bval([]byte{1}), bval([]byte{2}), {Name: "true", Code: op(sv.PUSHT)}, {Name: "null", Code: op(sv.PUSHNULL)},
+		{Name: "buffer(01)", Code: pushBuf([]byte{1})}, {Name: "array[]", Code: op(sv.NEWARRAY0)}, {Name: "struct[]", Code: op(sv.NEWSTRUCT0)},
+		{Name: "struct[1]", Code: cat(pushI(1), pushI(1), op(sv.PACKSTRUCT))}, {Name: "struct[bytes(01)]", Code: cat(pushD([]byte{1}), pushI(1), op(sv.PACKSTRUCT))},
+		{Name: "struct[struct[2]]", Code: cat(pushI(2), pushI(1), op(sv.PACKSTRUCT), pushI(1), op(sv.PACKSTRUCT))}, {Name: "map{}", Code: op(sv.NEWMAP)}, {Name: "pointer", Code: op(sv.PUSHA, 0, 0, 0, 0)}}
+	var structs []val
+	structs = append(structs, val{Name: "struct[]", Code: op(sv.NEWSTRUCT0)})
+	for _, a := range elems {
+		structs = append(structs, val{Name: "struct[" + a.Name + "]", Code: cat(a.Code, pushI(1), op(sv.PACKSTRUCT))})
+	}
+	for _, a := range elems {
+		for _, b := range elems {
+			structs = append(structs, val{Name: "struct[" + a.Name + "," + b.Name + "]", Code: cat(b.Code, a.Code, pushI(2), op(sv.PACKSTRUCT))})
+		}
+	}
+	return section{"struct-equal", len(structs), func(j int, emit func(prog)) {
+		a := structs[j]
+		for _, b := range structs {
+			emit(prog{Key: "EQUAL:" + a.Name + "," + b.Name, Class: "EQUAL-struct", Script: cat(a.Code, b.Code, op(sv.EQUAL))})
+		}
+		if j < len(elems)+1 && j > 0 {
+			// the SAME element object in two different structs (reference
+			// types are equal only then), and the same struct nested in two
+			e := elems[j-1]
+			emit(prog{Key: "EQUAL:struct[x],struct[x]:x=" + e.Name, Class: "EQUAL-struct", Script: cat(e.Code, op(sv.DUP), pushI(1), op(sv.PACKSTRUCT), op(sv.SWAP), pushI(1), op(sv.PACKSTRUCT), op(sv.EQUAL))})
+			emit(prog{Key: "EQUAL:struct[x,1],struct[x,2]:x=" + e.Name, Class: "EQUAL-struct", Script: cat(pushI(1), e.Code, op(sv.DUP), op(sv.ROT), op(sv.SWAP), pushI(2), op(sv.PACKSTRUCT), op(sv.SWAP), pushI(2), op(sv.SWAP), pushI(2), op(sv.PACKSTRUCT), op(sv.EQUAL))})
+			emit(prog{Key: "NOTEQUAL:struct[x],array[x]:x=" + e.Name, Class: "EQUAL-struct", Script: cat(e.Code, op(sv.DUP), pushI(1), op(sv.PACKSTRUCT), op(sv.SWAP), pushI(1), op(sv.PACK), op(sv.NOTEQUAL))})
+		}
+	}}
+}
+
+// structOfStructs: s = [t, t, ... (k times the SAME t)], t = struct of m
+// zeros: k*(m+1) elements are compared/cloned although only k+m+2 items exist.
+func structOfStructs(k, m int) []byte {
+	c := cat(rep(byte(sv.PUSH0), m), pushI(int64(m)), op(sv.PACKSTRUCT))
+	c = append(c, rep(byte(sv.DUP), k-1)...)
+	return cat(c, pushI(int64(k)), op(sv.PACKSTRUCT))
+}
+
+func structLimitPrograms(e func(key string, code ...[]byte)) {
+	// element pairs compared = k*(m+1): 2046 (within every reading), 2047
+	// (exactly at the budget: undetermined), 2048 and more (fault).
+	for _, km := range [][2]int{{45, 44}, {33, 61}, {23, 88}, {32, 63}, {45, 45}} {
+		k, m := km[0], km[1]
+		n := k * (m + 1)
+		e(fmt.Sprintf("struct-equal-elements(%d=%dx%d)", n, k, m+1), structOfStructs(k, m), structOfStructs(k, m), op(sv.EQUAL))
+		e(fmt.Sprintf("struct-equal-elements-mismatch-last(%d=%dx%d)", n, k, m+1), structOfStructs(k, m), structOfStructs(k, m), op(sv.DUP), pushI(0), op(sv.PICKITEM), pushI(int64(m-1)), pushI(1), op(sv.SETITEM), op(sv.EQUAL))
+		// cloning the same structure (APPEND clones; the clone un-shares t)
+		e(fmt.Sprintf("struct-clone-elements(%d=%dx%d)", n, k, m+1), op(sv.NEWARRAY0), structOfStructs(k, m), op(sv.APPEND))
+		e(fmt.Sprintf("struct-clone-elements,VALUES(%d=%dx%d)", n, k, m+1), structOfStructs(k, m), pushI(1), op(sv.PACK), op(sv.VALUES))
+	}
+	// byte budget of a comparison: 65536 units over the whole struct
+	z := func(n int) []byte { return zeros(n, true) }
+	st := func(elems ...[]byte) []byte {
+		var c []byte
+		for i := len(elems) - 1; i >= 0; i-- {
+			c = append(c, elems[i]...)
+		}
+		return cat(c, pushI(int64(len(elems))), op(sv.PACKSTRUCT))
+	}
+	for _, n := range []int{65534, 65535, 65536} {
+		e(fmt.Sprintf("struct-equal-bytes(%d)+int", n), st(z(n), pushI(1)), st(z(n), pushI(1)), op(sv.EQUAL))
+		e(fmt.Sprintf("struct-equal-int+bytes(%d)", n), st(pushI(1), z(n)), st(pushI(1), z(n)), op(sv.EQUAL))
+		e(fmt.Sprintf("struct-equal-bytes(%d)+bytes()", n), st(z(n), pushD(nil)), st(z(n), pushD(nil)), op(sv.EQUAL))
+		e(fmt.Sprintf("struct-equal-bytes(%d)+bytes(1)", n), st(z(n), pushD([]byte{0})), st(z(n), pushD([]byte{0})), op(sv.EQUAL))
+		e(fmt.Sprintf("struct-equal-bytes(%d)-vs-int", n), st(z(n)), st(pushI(1)), op(sv.EQUAL))
+	}
+	e("struct-equal-bytes(65537)", st(z(65537)), st(z(65537)), op(sv.EQUAL))
+	e("struct-equal-bytes(32768)x2", st(z(32768), z(32768)), st(z(32768), z(32768)), op(sv.EQUAL))
+	e("struct-equal-bytes(32768)+bytes(32769)", st(z(32768), z(32769)), st(z(32768), z(32769)), op(sv.EQUAL))
+	// nested: does the byte budget span nested structs? (undetermined)
+	e("struct-equal-nested-bytes(40000)x2", st(z(40000), st(z(40000))), st(z(40000), st(z(40000))), op(sv.EQUAL))
+	e("struct-equal-nested-bytes(30000)x2", st(z(30000), st(z(30000))), st(z(30000), st(z(30000))), op(sv.EQUAL))
+}
+
+// ---- behaviour before the Gorgon hardfork -------------------------------------------------------------------------
+
+func preGorgonSection() section {
+	V1 := append(valuesV(), valuesTyped()...)
+	V2 := valuesBinary()
+	return section{"pre-gorgon(SHL,SHR,HASKEY)", len(V2) + 1, func(j int, emit func(prog)) {
+		if j == len(V2) {
+			// every opcode over one operand with all hardforks disabled
+			for _, v := range V1 {
+				for b := 0; b < 256; b++ {
+					encs, tr := variants(byte(b))
+					emit(prog{Key: "pre-gorgon:" + encName(encs[0]) + ":" + v.Name, Class: "pre-gorgon-" + className(encs[0]), Script: cat(v.Code, encs[0], tr), PreGorgon: true})
+				}
+			}
+			return
+		}
+		a := V2[j]
+		extra := []val{ival(bi(sv.MaxItemSize - 1)), ival(bi(sv.MaxItemSize)), ival(bi(sv.MaxItemSize + 1))}
+		for _, c := range append(append([]val{}, V2...), extra...) {
+			for _, o := range []sv.Op{sv.SHL, sv.SHR, sv.HASKEY} {
+				emit(prog{Key: "pre-gorgon:" + o.Name() + ":" + a.Name + "," + c.Name, Class: "pre-gorgon-" + o.Name(), Script: cat(a.Code, c.Code, op(o)), PreGorgon: true})
+			}
+		}
+	}}
+}
+
+// ---- several scripts: contexts with their own evaluation stacks ------------------------------------------------------
+
+// hostSection: the entry script calls other scripts through the miniature
+// SYSCALL host (one argument in, RV values out). Under test: RET copying the
+// callee's evaluation stack / return value count check, exceptions crossing
+// contexts with different stacks (and what is left on the catcher's stack),
+// static fields and pointers per script (CALLA with a foreign pointer), item
+// identity across contexts, the item limit after a context was unwound.
+func hostSection() section {
+	type callee struct {
+		name string
+		code []byte
+		rv   int
+	}
+	sys := func(id int) []byte { return op(sv.SYSCALL, le32(int32(id))...) }
+	callees := []callee{
+		{"ret-arg+7", pushI(7), -1},
+		{"rv1-ok", cat(op(sv.DROP), pushI(8)), 1},
+		{"rv1-two", pushI(8), 1},
+		{"rv1-none", op(sv.DROP), 1},
+		{"throw-arg", op(sv.THROW), -1},
+		{"push-then-throw", cat(pushI(5), pushI(6), op(sv.ROT), op(sv.THROW)), -1},
+		{"own-pointer", cat(op(sv.DROP), op(sv.PUSHA, 0, 0, 0, 0)), -1},
+		{"append9", cat(op(sv.DUP), pushI(9), op(sv.APPEND)), -1},
+		{"statics", cat(op(sv.INITSSLOT, 1), op(sv.STSFLD0), op(sv.LDSFLD0), op(sv.LDSFLD0)), -1},
+		{"catches-inner-throw", cat(op(sv.TRY, 10, 0), sys(5), pushI(1), op(sv.ENDTRY, 3), pushI(2)), -1}, // calls throw-arg inside its own try
+		{"finally-then-propagate", cat(op(sv.TRY, 0, 9), sys(5), pushI(1), op(sv.ENDTRY, 3), pushI(3), op(sv.ENDFINALLY)), -1},
+		{"inner-call", cat(op(sv.CALL, 3), op(sv.RET), op(sv.INC), op(sv.DUP), op(sv.RET)), -1},
+		{"abort", op(sv.ABORT), -1},
+		{"push1500-throw", cat(op(sv.DROP), pushI(1500), op(sv.NEWARRAY), op(sv.UNPACK), op(sv.THROW)), -1},
+		{"push1500-ret", cat(op(sv.DROP), pushI(1500), op(sv.NEWARRAY), op(sv.UNPACK), op(sv.DROP)), -1},
+		{"static1500-throw", cat(op(sv.INITSSLOT, 1), pushI(1500), op(sv.NEWARRAY), op(sv.STSFLD0), op(sv.THROW)), -1},
+		{"local1500-throw", cat(op(sv.INITSLOT, 1, 0), pushI(1500), op(sv.NEWARRAY), op(sv.STLOC0), op(sv.THROW)), -1},
+		{"calls-entry-service-0", cat(sys(0)), -1}, // loads the entry script again (recursion across scripts, ends by a limit)
+		{"unknown-service", cat(sys(99)), -1},
+	}
+	var extra [][]byte
+	var rv []int
+	for _, c := range callees {
+		extra = append(extra, c.code)
+		rv = append(rv, c.rv)
+	}
+	args := []val{ival(bi(1)), {Name: "array[1,2]+kept", Code: cat(pushI(2), pushI(1), pushI(2), op(sv.PACK), op(sv.DUP))}, {Name: "struct[]+kept", Code: cat(op(sv.NEWSTRUCT0), op(sv.DUP))}, {Name: "<nothing>", Code: nil}, {Name: "5,null", Code: cat(pushI(5), op(sv.PUSHNULL))}}
+	posts := []cop{{"none", nil}, {"DEPTH", op(sv.DEPTH)}, {"CALLA", op(sv.CALLA)}, {"PUSHA0,EQUAL", cat(op(sv.PUSHA, 0, 0, 0, 0), op(sv.EQUAL))},
+		{"DUP,EQUAL", cat(op(sv.DUP), op(sv.EQUAL))}, {"LDSFLD0", op(sv.LDSFLD0)}, {"NEWARRAY(1000)", cat(pushI(1000), op(sv.NEWARRAY))}, {"again", nil}}
+	wraps := []string{"none", "TC", "TF", "TCF", "in-CALL"}
+	return section{"host-scripts", len(callees), func(j int, emit func(prog)) {
+		id := j + 1
+		for _, a := range args {
+			for _, p := range posts {
+				for _, w := range wraps {
+					call := sys(id)
+					post := p.Code
+					if p.Name == "again" {
+						post = sys(id)
+					}
+					pre := cat(op(sv.INITSSLOT, 1), pushI(77), op(sv.STSFLD0), a.Code)
+					var body []byte
+					switch w {
+					case "none":
+						body = cat(call, post)
+					case "TC": // try{call; m}catch{m}; post
+						t := cat(call, pushI(41))
+						body = cat(op(sv.TRY, byte(3+len(t)+2), 0), t, op(sv.ENDTRY, 4), pushI(42), op(sv.NOP), post)
+					case "TF": // try{call; m}finally{m}; post
+						t := cat(call, pushI(41))
+						body = cat(op(sv.TRY, 0, byte(3+len(t)+2)), t, op(sv.ENDTRY, 5), pushI(43), op(sv.ENDFINALLY), op(sv.NOP), post)
+					case "TCF":
+						t := cat(call, pushI(41))
+						c := cat(pushI(42))
+						// TRY c f | t | ENDTRY end | c | ENDTRY end | fin ENDFINALLY | end: NOP post
+						catchAt := 3 + len(t) + 2
+						finAt := catchAt + len(c) + 2
+						endAt := finAt + 2
+						body = cat(op(sv.TRY, byte(catchAt), byte(finAt)), t, op(sv.ENDTRY, byte(endAt-(3+len(t)))), c, op(sv.ENDTRY, byte(endAt-(catchAt+len(c)))), pushI(43), op(sv.ENDFINALLY), op(sv.NOP), post)
+					case "in-CALL": // the service is called from a function of the entry script which is itself in a try
+						fn := cat(call, pushI(44), op(sv.RET))
+						t := cat(op(sv.CALL_L, le32(0)...), pushI(41)) // patched below
+						head := cat(op(sv.TRY, byte(3+len(t)+2), 0), t, op(sv.ENDTRY, 4), pushI(42), op(sv.NOP), post, op(sv.RET))
+						// CALL_L sits at offset len(pre)+3 and must reach len(pre)+len(head)
+						off := int32(len(head) - 3)
+						head = cat(op(sv.TRY, byte(3+len(t)+2), 0), op(sv.CALL_L, le32(off)...), pushI(41), op(sv.ENDTRY, 4), pushI(42), op(sv.NOP), post, op(sv.RET))
+						body = cat(head, fn)
+					}
+					emit(prog{Key: fmt.Sprintf("HOST:%s:arg=%s:%s:post=%s", callees[j].name, a.Name, w, p.Name), Class: "host-" + callees[j].name, Script: cat(pre, body), Extra: extra, RV: rv})
+				}
 			}
 		}
 	}}
